@@ -16,7 +16,8 @@ RULE = ("broker: generated histories over 2-4 contracts (spot/margined, some nev
         "net_liquidation_value (both flags), holdings_values (both kinds), holdings_weights, context and rebalance raise; a non-zero target "
         "whose acquisition side is missing => rebalance raises; (must-succeed) every non-zero position has its liquidation side => valuations "
         "succeed and are finite whatever flat contracts lack; all involved contracts quoted on both sides, NLV>0, fresh time => rebalance "
-        "succeeds; (atomicity) whenever rebalance raises, every contract position is bitwise unchanged and the track record has the same length. "
+        "succeeds (rebalances carry a no-trade threshold in {0, 5%, 20%}: a skipped small imbalance needs no quote, a missing NEEDED side must "
+        "still raise); (atomicity) whenever rebalance raises, every contract position is bitwise unchanged and the track record has the same length. "
         "Non-trivial = a multi-trade rebalance whose failing contract is not the first one, or a held contract losing its quote while another "
         "contract is targeted, or a must-succeed call with an unquoted flat contract present.")
 ASSUMPTIONS = [
@@ -54,13 +55,26 @@ def cases(draw, tier="quick"):
         st.tuples(st.just("R"), st.lists(w, min_size=n, max_size=n), st.sampled_from(["weight", "weight", "nr-contracts"]),
                   st.just("fresh")),
     )
-    ops = draw(st.lists(op, min_size=2, max_size=25))
-    return {"contracts": specs, "deposit": 1000.0, "fees": [draw(st.sampled_from([0.0, 0.1])), draw(st.sampled_from([0.0, 0.001]))],
+    ops = [list(o) for o in draw(st.lists(op, min_size=2, max_size=25))]
+    unquoted = [i for i, s_ in enumerate(specs) if not s_["quoted"]]
+    if unquoted and draw(st.booleans()):
+        # motif: a contract discontinued BEFORE it was ever quoted or looked up, then a late quote, then targeted
+        i = unquoted[0]
+        tw = [None] * n
+        tw[i] = draw(st.sampled_from([0.3, -0.3, 0.5]))
+        ops = [["D", i]] + ops[: len(ops) // 2] + [["Q", i, 1.0, 0.0]] + ops[len(ops) // 2:] + \
+              [["R", tw, draw(st.sampled_from(["weight", "nr-contracts"])), "fresh"]]
+    thr = draw(st.sampled_from([0.0, 0.0, 0.05, 0.2]))
+    return {"contracts": specs, "deposit": 1000.0, "threshold": thr, "fees": [draw(st.sampled_from([0.0, 0.1])), draw(st.sampled_from([0.0, 0.001]))],
             "rate": draw(st.sampled_from([0.0, 0.03])), "markup": 0.0, "ops": [list(o) for o in ops]}
+
+
+THR = [0.0]
 
 
 def run_broker(case):
     res = Result()
+    THR[0] = case.get("threshold", 0.0)
     lab = B.Lab(case, quote_all=False)
     led, br, n = lab.ledger, lab.broker, lab.n
     alive = [True] * n
@@ -198,11 +212,11 @@ def run_broker(case):
             both_ok = all(bid_ok(i) and ask_ok(i) for i in involved)
             solvent = nlv_model is not None and nlv_model > 50.0
             if stale:
-                reb = lab.rebalancing(targets, measure, 1)
+                reb = lab.rebalancing(targets, measure, 1, margin=case.get("threshold", 0.0))
                 reb.time = last_reb_time[0] - timedelta(seconds=7)
                 lab.reb_time = last_reb_time[0]
             else:
-                reb = lab.rebalancing(targets, measure, 3600)
+                reb = lab.rebalancing(targets, measure, 3600, margin=case.get("threshold", 0.0))
             before = positions()
             len_before = len(br.track_record)
             try:
@@ -262,6 +276,7 @@ def run_broker(case):
 def finish(res, flags):
     for f in flags:
         res.tag(f)
+    res.tag("threshold=%g" % THR[0])
     res.nontrivial = bool(flags & {"failing-contract-not-first", "held-lost-quote-while-other-targeted",
                                    "succeeds-with-unquoted-flat-contract"})
     return res
